@@ -881,7 +881,35 @@ impl<'a> Gen<'a> {
     /// `iterable.iter().map(f).filter(p)...` ending in collect (a Vec) or reduce (a Num)
     fn iter_chain(&mut self, d: usize, collect: bool) -> Expr {
         self.label("iter_chain");
-        let src = match self.rd.below(5) {
+        let src = match self.rd.below(6) {
+            5 => {
+                // elements that look like pieces of the iteration protocol itself: the sentinel's
+                // class (an ordinary value), other classes, falsy values, and sometimes a sentinel
+                // instance (which ends the iteration there, as for any iterator that returns one)
+                self.label("protocol_like_elements");
+                const PL: &[&str] = &["StopIter", "Error", "Iter", "Object", "nil", "false", "0", "\"\"", "TypeError", "Type"];
+                let n = 2 + self.rd.below(4);
+                let mut items: Vec<Expr> = Vec::new();
+                for _ in 0..n {
+                    let name = self.rd.pick_str(PL);
+                    items.push(match name {
+                        "nil" => Expr::Nil,
+                        "false" => Expr::False,
+                        "0" => Expr::Num(0.0),
+                        "\"\"" => Expr::str(""),
+                        c => Expr::var(c),
+                    });
+                }
+                if self.rd.chance(1, 5) {
+                    let at = self.rd.below(items.len() + 1);
+                    items.insert(at, Expr::invoke(Expr::var("StopIter"), "new", vec![]));
+                }
+                if self.rd.flag() {
+                    Expr::VecLit(items)
+                } else {
+                    Expr::TupleLit(items)
+                }
+            }
             0 => self.expr(Kind::Vec, d.min(1)),
             1 => self.literal_range(),
             2 => self.literal(Kind::Tuple),
